@@ -579,6 +579,36 @@ func (x *Exec) loopHeader(f *Frame, st *State, b *ssa.BasicBlock, prev *ssa.Basi
 		invs = ad.group
 	}
 	if len(invs) == 0 {
+		// a loop nobody wrote an invariant for (a helper extracted by a refactoring, a new conversion loop): the walk
+		// itself is described by its position - a range loop stays inside the list it ranges over, an iterator or map
+		// walk inside its enumeration. These default clauses are proved like declared ones; whatever else the unit
+		// needs from the loop it has to state, and then fails on its own obligations, not on the missing invariant.
+		var defs []string
+		if _, ok := env.vars["rangeindex"]; ok {
+			if _, ok2 := env.vars["rangeover"]; ok2 {
+				defs = append(defs, "rangeindex >= 0 - 1 && rangeindex < len(rangeover)")
+			}
+		}
+		if b0 := f.loopIter; b0 != nil {
+			if _, own := b0[b]; own || isBack {
+				if _, ok := env.vars["it_idx"]; ok && loopAdvancesIter(f.inLoop[b]) {
+					defs = append(defs, "0 <= it_idx && it_idx <= it_n")
+				}
+			}
+		}
+		if _, ok := env.vars["mr_idx"]; ok && loopHasNext(f.inLoop[b]) {
+			defs = append(defs, "0 <= mr_idx && mr_idx <= mr_n")
+		}
+		for _, d := range defs {
+			if e, err := ParseExpr(d); err == nil {
+				invs = append(invs, &Clause{Label: "auto", Expr: e, Src: d, Loop: k})
+			}
+		}
+		if len(invs) > 0 {
+			x.assumed[fmt.Sprintf("loop %s#%d has no declared invariant: default position invariant used (proved as usual)", lastName(fkey), k)] = true
+		}
+	}
+	if len(invs) == 0 {
 		x.oblige(st, "loopinv-missing", fmt.Sprintf("%s#%d", lastName(fkey), k), x.pos(b.Instrs[0].Pos()), False, "loop without invariant in "+fkey)
 		return nil, true
 	}
@@ -1158,4 +1188,29 @@ func (x *Exec) havocCell(st *State, b Val, depth int) {
 			}
 		}
 	}
+}
+
+func loopHasNext(body map[*ssa.BasicBlock]bool) bool {
+	for blk := range body {
+		for _, ins := range blk.Instrs {
+			if nx, ok := ins.(*ssa.Next); ok && !nx.IsString {
+				return true
+			}
+		}
+	}
+	return false
+}
+
+func loopAdvancesIter(body map[*ssa.BasicBlock]bool) bool {
+	for blk := range body {
+		for _, ins := range blk.Instrs {
+			if ci, ok := ins.(ssa.CallInstruction); ok {
+				cc := ci.Common()
+				if cc.IsInvoke() && cc.Method.Name() == "Next" && strings.Contains(types.TypeString(cc.Value.Type(), nil), "Iterator") {
+					return true
+				}
+			}
+		}
+	}
+	return false
 }
